@@ -103,11 +103,16 @@ func (l *lengthFieldCodec) HandleRead(ctx netty.InboundContext, message netty.Me
 	utils.AssertIf(int64(l.initialBytesToStrip) > frameLength,
 		"Adjusted frame length (%d) is less than initialBytesToStrip: %d", frameLength, l.initialBytesToStrip)
 
+	// a frame is delivered only after it has been received completely.
+	bodyBuffer := make([]byte, frameLength-int64(lengthFieldEndOffset))
+	n, err = io.ReadFull(reader, bodyBuffer)
+	utils.AssertIf(nil != err, "read body fail, bodyLength: %d, read: %d, error: %w", len(bodyBuffer), n, err)
+
 	frameReader := io.MultiReader(
 		// lengthFieldOffset + lengthFieldLength
 		bytes.NewReader(headerBuffer),
 		// frameLength - len(headerBuffer)
-		io.LimitReader(reader, frameLength-int64(lengthFieldEndOffset)),
+		bytes.NewReader(bodyBuffer),
 	)
 
 	// strip bytes
